@@ -131,6 +131,19 @@ chk("C10", "proof",
     "Coq proof over hand model; correspondence from the fix-debug trace; enumeration for the converse and read-only clauses",
     "DESIGN.md section 4 C10")
 
+chk("C16", "proof",
+    "Proved (Coq, closed under the global context) over Model/IO.v for every text: the file provider (readlines, terminator stripping, the "
+    "appended empty line with its initial True) and the in-memory provider (repeated split) both yield exactly split on LF of the text as read; "
+    "universal-newline reading is idempotent, so the lines seen through a file, through scan_string/fix_string (temporary file) and through "
+    "scan-stdin (text-mode stdin, then temporary file) are the same; CR-LF line ends give the same lines as LF; a final newline adds exactly one "
+    "empty last line. Tied to the code by evaluating the model on every string over {a, LF, CR} up to length 6 (quick) / 8 (thorough) against "
+    "both providers (exhaustive). That the same lines yield the same failures and fixed text through the four scan and three fix entry points, for "
+    "four rule selections, eight diagnostic option sets and under a C locale, is explored on pool + repository-corpus documents (incl. CR-LF conversions).",
+    "Trusted: Coq kernel + vm_compute, in-process CLI/API drivers, the stdin emulation (universal-newline TextIOWrapper) and the child-process "
+    "runs under LC_ALL=C. Modelled rather than verified: Python text-mode I/O, argparse, the API's argument builder (differential only).",
+    "Coq proof over hand model of the I/O pipeline; exhaustive small-string correspondence; entry-point differential",
+    "DESIGN.md section 4 C16")
+
 NOT_YET = {}
 
 
